@@ -18,12 +18,12 @@ import random
 from vlib import core, tlc
 
 INVS = ['TypeOK', 'C18_Recorded', 'C18_FindOK', 'C18_ApiFindOK']
-PROPS = ['C18_AppendOnce']
+PROPS = ['C18_AppendOnce', 'C18_ReadOnly']
 SETS = ('Y', 'L', 'J')  # calendars of spec/Chronicle_MC.tla
 MCW = min(core.NPROC, 8)  # measured: on a busy machine 16 TLC workers thrash on the state queue
 
 
-def consts(cal, cand, bounds, limits, nows, api=False, pinned=False, pinned_api=False):
+def consts(cal, cand, bounds, limits, nows, api=False, pinned=False, pinned_api=False, reader=False):
     return {
         'Cal': f'<- Cal{cal}',
         'Tod': '<- TodMini',
@@ -35,6 +35,7 @@ def consts(cal, cand, bounds, limits, nows, api=False, pinned=False, pinned_api=
         'Limits': '{' + ', '.join(str(x) for x in limits) + '}',
         'Nows': f'<- Nows{cal}{nows}',
         'WithApi': 'TRUE' if api else 'FALSE',
+        'WithReader': 'TRUE' if reader else 'FALSE',
         'Pinned': 'TRUE' if pinned else 'FALSE',
         'PinnedApi': 'TRUE' if pinned_api else 'FALSE',
     }
@@ -49,12 +50,13 @@ def generate(chk, name, cst):
     chk.mc_runs.append(dict(res.summary(), name=name, module='Chronicle_Gen.tla'))
     table = [json.loads(r[1]) for r in tlc.printed(res, 'TABLE')]
     queries = [json.loads(r[1]) for r in tlc.printed(res, 'QUERY')]
+    readers = [tuple(json.loads(r[1])) for r in tlc.printed(res, 'READER')]
     hists = [json.loads(r[1]) for r in tlc.printed(res, 'HIST') if r[1] != '[]']
-    if not table or not queries or not hists:
+    if not table or not queries or not hists or not readers:
         raise core.Machinery(f'generation {name}: nothing generated')
     if len(hists) + 1 != res.distinct:
         raise core.Machinery(f'generation {name}: {len(hists)} histories for {res.distinct} states')
-    return table[0], [tuple(x) for x in queries], hists
+    return table[0], [tuple(x) for x in queries], hists, readers
 
 
 def when(table, i):
@@ -102,14 +104,20 @@ def validate_and_collect(chk, pid, cal, jobs):
     byid = {j['id']: j for j in jobs}
     recs = {}
     need = {(r['tid'], r['line']) for r in rows['CLAUSE']} | {(r[1], r[2]) for r in rows['DRIFT'][:5]}
-    stats = dict(append_lines=0, find_lines=0, api_lines=0, nonempty_answers=0, nonempty_offset_answers=0, truncated_answers=0, errors=0)
+    stats = dict(append_lines=0, find_lines=0, api_lines=0, reader_lines=0, answers_after_a_reader=0, nonempty_answers=0, nonempty_offset_answers=0, truncated_answers=0, errors=0)
     nontrivial = set()
     for fn in files:
         with open(fn, 'rt', encoding='utf-8') as f:
             for ln in f:
                 t = json.loads(ln)
                 apps = tuple(byid[t['tid']]['appends'])
+                read = False
                 for i, st in enumerate(t['steps']):
+                    if st['ev'] == 'stats':
+                        stats['reader_lines'] += 1
+                        read = True
+                    elif read and st['ev'] in ('find', 'api') and st['obs']['res']:
+                        stats['answers_after_a_reader'] += 1
                     if (t['tid'], i + 1) in need:
                         recs[(t['tid'], i + 1)] = st
                     if st['ev'] == 'append':
@@ -139,8 +147,16 @@ def validate_and_collect(chk, pid, cal, jobs):
         table = job['table']
         st = recs.get((tid, line), {})
         reasons = ','.join(sorted(r['why']))
-        if ev in ('find', 'api'):
-            q = job['queries'][line - 2 - len(job['appends'])]
+        qi = line - 2 - len(job['appends'])
+        if ev == 'stats':
+            q = job['queries'][qi]
+            sig = f'reader:{reasons}'
+            detail = {'call': 'fe.api.df_model_statistics', 'node_of_entry': q[7], 'boot_time': when(table, q[0]), 'now': when(table, q[4]), 'appends': job['appends'], 'files_after': st.get('st', {}).get('files'), 'error': st.get('obs', {}).get('err')}
+            rjob = dict(job, queries=job['queries'][: qi + 1])
+        elif ev in ('find', 'api'):
+            q = job['queries'][qi]
+            earlier = job['queries'][:qi]
+            hist = ('after-reader:' if any(x[6] == 2 for x in earlier) else 'after-find:' if any(x[6] == 0 for x in earlier) else '')
             sig = f'{ev}:{shape(q)}:{reasons}'
             detail = {
                 'call': ('chronicle.find' if ev == 'find' else 'fe.api.schedule.' + ('succeeded' if q[3] else 'failed')),
@@ -153,8 +169,9 @@ def validate_and_collect(chk, pid, cal, jobs):
                 'appended': [{'id': e, 'completed': when(table, table['at'][e - 1]), 'status': table['st'][e - 1], 'run': table['run'][e - 1]} for e in job['appends']],
                 'returned_ids': st.get('obs', {}).get('res'),
                 'error': st.get('obs', {}).get('err'),
+                'earlier_calls_in_this_history': hist.rstrip(':') or 'none',
             }
-            rjob = dict(job, queries=[q])
+            rjob = dict(job, queries=job['queries'][: qi + 1])  # answers may depend on the earlier readers of the history
         else:
             sig = f'{ev}:{reasons}'
             detail = {'appends': job['appends'][: max(0, line - 1)], 'files_after': st.get('st', {}).get('files'), 'error': st.get('obs', {}).get('err')}
@@ -164,17 +181,28 @@ def validate_and_collect(chk, pid, cal, jobs):
                 chk.add_violation(clause, sig, dict(detail, calendar=cal, trace=tid, line=line, why=reasons), {'cal': cal, 'job': rjob})
 
 
-def make_jobs(rnd, table, hists, queries, nfind, napi, start=0):
+def with_readers(rnd, qs, readers, h, n, nows, nzones):
+    '''insert n other readers of the history (kind 2) at seeded places of the first half of the query list'''
+    pool = [r for r in readers if r[1] in h] or readers
+    for b, e in rnd.sample(pool, min(n, len(pool))):
+        qs.insert(rnd.randint(0, max(0, len(qs) // 2)), [b, -1, -1, 1, rnd.choice(nows), rnd.randint(1, nzones), 2, e])
+    return qs
+
+
+def make_jobs(rnd, table, hists, queries, readers, nfind, napi, nread, start=0):
     jobs = []
+    nows = sorted({x[4] for x in queries})
     for i, h in enumerate(hists):
         fq = queries if nfind is None or nfind >= len(queries) else rnd.sample(queries, nfind)
         aq = queries if napi is None or napi >= len(queries) else rnd.sample(queries, napi)
-        qs = [list(x) + [0] for x in fq] + [list(x) + [1] for x in aq]  # (after, before, limit, ok, now, zone) + api
-        jobs.append({'id': start + i, 'table': table, 'appends': h, 'strform': bool(i % 2), 'queries': qs})
+        # (after, before, limit, ok, now, zone) + kind (0 find, 1 front end, 2 other reader) + entry id (readers)
+        qs = [list(x) + [0, 0] for x in fq] + [list(x) + [1, 0] for x in aq]
+        rnd.shuffle(qs)
+        jobs.append({'id': start + i, 'table': table, 'appends': h, 'strform': bool(i % 2), 'queries': with_readers(rnd, qs, readers, h, nread, nows, len(table['zone']))})
     return jobs
 
 
-def random_jobs(rnd, table, n, nq, start):
+def random_jobs(rnd, table, n, nq, nread, start):
     '''extras on top of TLC's enumeration: any subset of ALL table entries (an entry may be appended
     twice), any order, bounds anywhere on the instant grid'''
     ne = len(table['at'])
@@ -194,7 +222,9 @@ def random_jobs(rnd, table, n, nq, start):
             lim = -1 if rnd.random() < 0.4 else rnd.randint(0, 5)
             if a < 0 and b < 0 and lim < 0:
                 lim = rnd.randint(0, 5)
-            qs.append([a, b, lim, rnd.randint(0, 1), rnd.randint(top + 1, ninst - 1), rnd.randint(1, len(table['zone'])), 1 if rnd.random() < 0.2 else 0])
+            qs.append([a, b, lim, rnd.randint(0, 1), rnd.randint(top + 1, ninst - 1), rnd.randint(1, len(table['zone'])), 1 if rnd.random() < 0.2 else 0, 0])
+        readers = [(rnd.choice([0] + hot), e) for e in (h or [1])]
+        with_readers(rnd, qs, readers, h, nread, list(range(top + 1, ninst)), len(table['zone']))
         jobs.append({'id': start + i, 'table': table, 'appends': h, 'strform': bool(i % 2), 'queries': qs})
     return jobs
 
@@ -236,6 +266,7 @@ def run(pid, tier, seed, replay=None):
         'after+limit without before is unconstrained beyond "subset of the window, newest first" (statement is silent); ties in completion time may be ordered / cut anywhere',
         'bounds are handed over tz-aware, written with the offsets +00:00, -05:00, +05:30, +13:00, -11:00 (datetimes for find, ISO strings in lists for failed/succeeded - the form the web layer hands over); the zone is not part of the meaning of a query; a call that raises is not an answer',
         'journal files are read back from disk after every append; an entry counts only if it is byte-for-byte (as JSON) the entry that was handed to append',
+        'other readers of the history run between the queries of a history: the real fe.api.df_model_statistics (scheduler queues empty, boot time injected) and, after every find, the harness editing the entries it was handed (the caller\'s own copies); by the property they change nothing',
     ]
     if replay:
         with open(replay, 'rt', encoding='utf-8') as f:
@@ -257,7 +288,7 @@ def run(pid, tier, seed, replay=None):
             ('mcYC', consts('Y', 'CandC', 'Q', [1, 2], 'Q')),  # 10 entries, both outcomes at the same instants
             ('mcJA', consts('J', 'CandA', 'Q', [0, 1, 2], 'T')),
             ('mcJB', consts('J', 'CandB', 'Q', [1, 2], 'Q')),
-            ('mcApi', consts('Y', 'CandA', 'Q', [0, 1, 2], 'Q', api=True)),
+            ('mcApi', consts('Y', 'CandA', 'Q', [0, 1, 2], 'Q', api=True, reader=True)),  # front end + other readers between appends and queries
         ]
     else:
         # quick: one light model run (launches dominate the quick tier); the L / J / front-end / 10-entry
@@ -282,28 +313,28 @@ def run(pid, tier, seed, replay=None):
             ('L', 'genLB', consts('L', 'CandB', 'BoundsAll', [0, 1, 2, 3], 'T'), 150, 25),
             ('J', 'genJA', consts('J', 'CandA', 'Q', [0, 1, 2], 'T'), 100, 20),
         ]
-        nrand, nrq = 600, 60
+        nrand, nrq, nread = 600, 60, 4
     else:
         gens = [
             ('Y', 'genYA', consts('Y', 'CandA', 'Q', [0, 1, 2], 'Q'), 45, 12),
             ('J', 'genJS', consts('J', 'CandS', 'Q', [0, 1, 2], 'Q'), 40, 10),
         ]
-        nrand, nrq = 50, 40
+        nrand, nrq, nread = 50, 40, 2
     jobs = {c: [] for c in SETS}
     tables = {}
     nid = 0
     for cal, name, cst, nfind, napi in gens:
-        table, queries, hists = generate(chk, name, cst)
+        table, queries, hists, readers = generate(chk, name, cst)
         tables[cal] = table
         chk.counters['histories_' + name] = len(hists)
         chk.counters['queries_' + name] = len(queries)
-        new = make_jobs(rnd, table, hists, queries, nfind, napi, start=nid)
+        new = make_jobs(rnd, table, hists, queries, readers, nfind, napi, nread, start=nid)
         nid += len(new)
         jobs[cal] += new
     for cal in SETS:
         if cal not in tables:
             continue
-        new = random_jobs(rnd, tables[cal], nrand if cal == 'J' or not thorough else nrand // 3, nrq, start=nid)
+        new = random_jobs(rnd, tables[cal], nrand if cal == 'J' or not thorough else nrand // 3, nrq, nread, start=nid)
         nid += len(new)
         jobs[cal] += new
         chk.counters['random_extra_traces'] = chk.counters.get('random_extra_traces', 0) + len(new)
@@ -315,20 +346,20 @@ def run(pid, tier, seed, replay=None):
                 {
                     'calendar': cal,
                     'appends': [[e, when(t, t['at'][e - 1]), t['st'][e - 1]] for e in j['appends']],
-                    'queries': [{'api': bool(q[6]), 'after': when(t, q[0]), 'before': when(t, q[1]), 'offset': zone(t, q[5]), 'limit': None if q[2] < 0 else q[2], 'succeeded': bool(q[3]), 'now': when(t, q[4])} for q in j['queries'][:2]],
+                    'queries': [{'call': ('find', 'front end', 'other reader')[q[6]], 'after': when(t, q[0]), 'before': when(t, q[1]), 'offset': zone(t, q[5]), 'limit': None if q[2] < 0 else q[2], 'succeeded': bool(q[3]), 'now': when(t, q[4])} for q in j['queries'][:2]],
                 }
             )
     # 3 + 4
     for cal in SETS:
         validate_and_collect(chk, pid, cal, jobs[cal])
     completions(chk, pid, thorough, rnd)
-    for k in ('append_lines', 'find_lines', 'api_lines', 'nonempty_answers', 'nonempty_offset_answers', 'truncated_answers', 'completions_recorded_by_the_scheduler'):
+    for k in ('append_lines', 'find_lines', 'api_lines', 'reader_lines', 'answers_after_a_reader', 'nonempty_answers', 'nonempty_offset_answers', 'truncated_answers', 'completions_recorded_by_the_scheduler'):
         if not chk.counters.get(k) and not chk.violations:
             raise core.Machinery(f'vacuous run: counter {k} is zero')
     return chk.finish(
         'histories = one append sequence per distinct state of the journal files of the bounded model (all of them), queries = the (after, before, limit, outcome, now) '
         'domain printed by TLC (exhaustive in the model; per history a seeded sample of it is run on the real code), each through the real chronicle.find and through '
-        'fe.api.schedule.failed/succeeded on real files; plus seeded random histories/queries over all table entries and the whole instant grid of each calendar. '
+        'fe.api.schedule.failed/succeeded on real files, in seeded order, with other readers of the history (fe.api.df_model_statistics; the caller editing the entries it got) in between; plus seeded random histories/queries over all table entries and the whole instant grid of each calendar. '
         'non-trivial = distinct (history, call, query) with a non-empty real answer'
     )
 
